@@ -12,7 +12,7 @@ file is the trusted base of the source-text tie of property C09 (notes/NOTES-py2
   which view a value is and emits the `PStk.*` operations (`@`, `-`, `inv` act on the matrices of the
   stack, a stack of length 1 is broadcast as NumPy does) for that view.
   Every operation whose operands must fit checks at run time and is an error otherwise.
-* `PVec` — a 1-D array of real numbers (`omega`: rationals, like the model), `PBVec` a 1-D array of
+* `FVec` — a 1-D array of real numbers (`omega`: rationals, like the model), `PBVec` a 1-D array of
   booleans, `PKVec K` a 1-D array over the field.
 * floats / complex numbers are an arbitrary field `K` with EXACT arithmetic (DESIGN §3.1): a division
   by an exact zero is an error `zeroDen` (NumPy: `inf` / `nan` and a warning), `numpy.linalg.inv` of a
@@ -46,7 +46,7 @@ namespace CtrlVerif
 open Matrix
 
 /-- a 1-D array of reals. -/
-structure PVec where
+structure FVec where
   n : Nat
   v : Fin n → ℚ
 
@@ -80,53 +80,53 @@ def flatnonzero (b : PBVec) : List Nat := ((List.finRange b.n).filter fun k => b
 
 end PBVec
 
-namespace PVec
+namespace FVec
 
 /-- a Python list of reals as a 1-D array. -/
-def ofList (l : List ℚ) : PVec := ⟨l.length, fun k => l[k]⟩
+def ofList (l : List ℚ) : FVec := ⟨l.length, fun k => l[k]⟩
 
 /-- iteration over a 1-D array. -/
-def toList (a : PVec) : List ℚ := List.ofFn a.v
+def toList (a : FVec) : List ℚ := List.ofFn a.v
 
 /-- `np.array(x, ndmin=1)` of a 1-D array. -/
-def array1 (a : PVec) : PVec := a
+def array1 (a : FVec) : FVec := a
 
 /-- `a - b` for two 1-D arrays of the same length (other lengths: error). -/
-def sub (a b : PVec) : Except Err PVec :=
+def sub (a b : FVec) : Except Err FVec :=
   if h : b.n = a.n then .ok ⟨a.n, fun k => a.v k - b.v (Fin.cast h.symm k)⟩ else .error .shape
 
 /-- `abs(a)` -/
-def abs (a : PVec) : PVec := ⟨a.n, fun k => |a.v k|⟩
+def abs (a : FVec) : FVec := ⟨a.n, fun k => |a.v k|⟩
 
 /-- `a < c` -/
-def ltNum (a : PVec) (c : ℚ) : PBVec := ⟨a.n, fun k => decide (a.v k < c)⟩
+def ltNum (a : FVec) (c : ℚ) : PBVec := ⟨a.n, fun k => decide (a.v k < c)⟩
 
 /-- `a > c` -/
-def gtNum (a : PVec) (c : ℚ) : PBVec := ⟨a.n, fun k => decide (a.v k > c)⟩
+def gtNum (a : FVec) (c : ℚ) : PBVec := ⟨a.n, fun k => decide (a.v k > c)⟩
 
 /-- `a == c` -/
-def eqNum (a : PVec) (c : ℚ) : PBVec := ⟨a.n, fun k => decide (a.v k = c)⟩
+def eqNum (a : FVec) (c : ℚ) : PBVec := ⟨a.n, fun k => decide (a.v k = c)⟩
 
 /-- `a.imag` of a real array. -/
-def imag (a : PVec) : PVec := ⟨a.n, fun _ => 0⟩
+def imag (a : FVec) : FVec := ⟨a.n, fun _ => 0⟩
 
 /-- `np.sort(a)`. -/
-def sort (a : PVec) : PVec := ofList ((List.ofFn a.v).mergeSort fun x y => decide (x ≤ y))
+def sort (a : FVec) : FVec := ofList ((List.ofFn a.v).mergeSort fun x y => decide (x ≤ y))
 
 variable {K : Type}
 
 /-- `1j * omega` -/
-def jw (E : Env K) (a : PVec) : PKVec K := ⟨a.n, fun k => E.jw (a.v k)⟩
+def jw (E : Env K) (a : FVec) : PKVec K := ⟨a.n, fun k => E.jw (a.v k)⟩
 
 /-- `np.exp(1j * omega * dt)` for the timebase attribute `dt` of a system: `True` counts as `1`,
 `None` is a `TypeError`. -/
-def expj (E : Env K) (a : PVec) : Dt → Except Err (PKVec K)
+def expj (E : Env K) (a : FVec) : Dt → Except Err (PKVec K)
   | .none => .error .badArg
   | .cont => .ok ⟨a.n, fun k => E.expj 0 (a.v k)⟩
   | .dtrue => .ok ⟨a.n, fun k => E.expj 1 (a.v k)⟩
   | .disc h => .ok ⟨a.n, fun k => E.expj h (a.v k)⟩
 
-end PVec
+end FVec
 
 namespace PKVec
 
@@ -356,7 +356,7 @@ variable {K : Type} [Field K]
 def frdata (G : PyFRD K) : PArr3 K := ⟨G.d.p, G.d.m, G.n, G.d.sys.data⟩
 
 /-- `sys.omega` -/
-def omega (G : PyFRD K) : PVec := ⟨G.n, G.d.sys.omega⟩
+def omega (G : PyFRD K) : FVec := ⟨G.n, G.d.sys.omega⟩
 
 /-- `sys.noutputs` -/
 def noutputs (G : PyFRD K) : Nat := G.d.p
@@ -371,7 +371,7 @@ def smooth (G : PyFRD K) : Bool := G.d.smooth
 def issiso (G : PyFRD K) : Bool := G.d.p == 1 && G.d.m == 1
 
 /-- `FRD(frdata, omega, dt=dt, smooth=smooth)`. -/
-def ctor (A : PArr3 K) (w : PVec) (dt : Dt) (smooth : Bool) : Except Err (PyFRD K) :=
+def ctor (A : PArr3 K) (w : FVec) (dt : Dt) (smooth : Bool) : Except Err (PyFRD K) :=
   if h : w.n = A.n then
     if smooth = true ∧ A.n < 2 then .error .shape
     else .ok ⟨A.n, ⟨A.p, A.m, ⟨fun k => w.v (Fin.cast h.symm k), A.d⟩, smooth⟩, dt⟩
